@@ -7,6 +7,27 @@ import sys
 HERE = os.path.dirname(os.path.dirname(os.path.abspath(__file__)))
 
 CHECKS = {
+    'C01': dict(
+        level='exploration', ref='3/C01',
+        technique='runtime monitoring: round-trip monitor with a type-exact, bit-exact equality oracle over a seeded '
+                  'value generator x storage configurations x store paths x accessors; storage mode read by an '
+                  'independent SQLite observer',
+        text='Every generated value is stored through one of set/add/__setitem__/push/incr/stream and Deque/Index/'
+             'FanoutCache paths and read back through every applicable accessor; the run is inconclusive unless every '
+             'storage mode (raw, binary file, text file, pickle inline, pickle file) and rejected values were observed. '
+             'Held means no altered value among those observed.',
+        note='Trusted: CPython pickle/json, the equality oracle (vf/observe.py same). JSONDisk: read-flag accessors are '
+             'paired with read-flag stores (JSONDisk bypasses serialisation when read is set, by design); JSON '
+             'fixed-point values only.'),
+    'C02': dict(
+        level='exploration', ref='3/C02',
+        technique='runtime monitoring: n-ary identity monitor (cache vs dict keyed by the documented identity function) '
+                  'over salted key pools, plus per-lookup-flavour pair monitor; known-finding classifier by mechanism',
+        text='After storing each pool the cache must equal a dictionary keyed by the documented identity (length, every '
+             'lookup, membership, four iterations with key type); near-miss pairs are driven through all 11 lookup '
+             'flavours. ~700k ordered pairs judged per quick run.',
+        note='Trusted: the identity function (vf/observe.py ident). Known finding K1 (composite keys with different '
+             'pickle bytes) is classified by mechanism and reported as KNOWN-FINDING.'),
     'C03': dict(
         level='exploration', ref='3/C03',
         technique='runtime monitoring: lock-step reference-model monitor (RefCache) over generated call histories, '
@@ -19,6 +40,16 @@ CHECKS = {
              'inside diskcache. Histories in which an expiry instant falls between two clock reads of one call are '
              'avoided by moving the clock first.'),
 }
+
+CHECKS['C04'] = dict(
+    level='exploration', ref='3/C04',
+    technique='runtime monitoring: lock-step RefCache monitor under a virtual clock with frozen-instant batches, '
+              'expiry-centred history generator, Cache and FanoutCache',
+    text='Histories put 1/99/100/101/250 items on one shared (clock frozen) or on spread expiry instants, move the clock '
+         '(none/tiny/past one/past all) and drive every operation that reads or writes expiry; expire()/cull() results '
+         'and the surviving rows are compared with the reference after every call; lazy culls are checked to remove only '
+         'expired items and at most cull_limit per shard.',
+    note='Trusted: virtual clock substitution; expiry instants are positive; now == expire_time never generated.')
 
 NOT_YET = {}
 
